@@ -3,6 +3,7 @@ package verifh
 import (
 	"os"
 	"path/filepath"
+	"syscall"
 	"testing"
 	"testing/synctest"
 	"time"
@@ -195,6 +196,65 @@ func TestC18(t *testing.T) {
 			}
 			r.Outcome("concurrent-same")
 			return pts
+		}
+		// (c) an open disturbed by one I/O fault (error at every leaf operation index in turn) either fails or yields
+		// the very same image: a client that reconnects after a hiccup must not find the layout shifted
+		if r.Shard == ti%r.NShards {
+			probe := newVFs(afero.NewOsFs(), "leaf")
+			probe.record = false
+			if v, err := pfs.NewVirtualISO(afero.NewBasePathFs(probe, root), "/T", ps3); err == nil {
+				st, _ := v.Stat()
+				canonicalImage(v, 1<<20, st.Size()+1<<20)
+				v.Close()
+			}
+			nops := probe.Seq()
+			for i := 0; i < nops; i++ {
+				leaf := newVFs(afero.NewOsFs(), "leaf")
+				leaf.record = false
+				leaf.Hook = func(e FsEvent) *FsFault {
+					if e.Seq == i {
+						return &FsFault{Err: syscall.EIO}
+					}
+					return nil
+				}
+				var img []byte
+				var size int64
+				var err error
+				func() {
+					defer func() {
+						if p := recover(); p != nil {
+							err = errPanic{p}
+						}
+					}()
+					var v *pfs.VirtualISO
+					v, err = pfs.NewVirtualISO(afero.NewBasePathFs(leaf, root), "/T", ps3)
+					if err != nil {
+						return
+					}
+					defer v.Close()
+					st, _ := v.Stat()
+					size = st.Size()
+					img, err = canonicalImage(v, 1<<20, size+1<<20)
+				}()
+				r.Transition(1)
+				key := sprintf("%s fault@%d", desc, i)
+				r.State(key)
+				r.Nontrivial(key)
+				if _, isPanic := err.(errPanic); isPanic {
+					r.Violation("C18:fault-panic", sprintf("%s: panic under an I/O error at leaf operation %d: %v", desc, i, err), map[string]any{"tree": tr.Nodes, "ps3": ps3, "fault_at": i})
+					continue
+				}
+				if err != nil {
+					r.Outcome("faulted-open-fails")
+					continue
+				}
+				if d := maskedEqual(solo, img, mask); d != "" {
+					r.Outcome("faulted-open-differs")
+					r.Violation("C18:faulted-open-differs", sprintf("%s: an open disturbed by an I/O error at leaf operation %d succeeded with a different image (size %d vs %d): %s", desc, i, size, len(solo), d), map[string]any{"tree": tr.Nodes, "ps3": ps3, "fault_at": i})
+					continue
+				}
+				r.Outcome("faulted-open-same")
+			}
 		}
 		execs, complete := exploreSchedules(bound, r.Shard, r.NShards, run, r.TimeUp)
 		r.ExtraAdd("concurrent_executions", int64(execs))
